@@ -247,6 +247,7 @@ class ScriptedPort(ebbfake.PortExtras):
     def close(self):
         self.closed = True
         if self.close_fault:
+            CLOSE_RAISED.append(1)
             # the port is gone all the same (cable pulled): close() reports it, the object must still end up not connected
             exc = self.serial.SerialException if self.close_fault == "serial" else self.serial.serialutil.PortNotOpenError
             raise exc() if self.close_fault != "serial" else exc("injected close failure")
@@ -290,7 +291,8 @@ def enc_ret(m, val, last_reply_text):
         if not -2 ** 31 <= val < 2 ** 31:
             return ["other"]
         return ["int", val >> 16, val & 0xFFFF]          # two halves: -2^31 and friends survive JSON -> TLC
-    if isinstance(val, tuple) and len(val) == 2:
+    if isinstance(val, (tuple, list)) and len(val) == 2:
+        val = tuple(val)
         if val == (None, None):
             return ["nonepair"]
         if all(isinstance(x, int) and not isinstance(x, bool) for x in val):
@@ -307,13 +309,14 @@ class Session:
     def __init__(self, dev="ebb_ok", start_connected=True, board=None, supplier=None, enumerated=True, close_fault=""):
         self.e3m, self.e3s, self.serial = mods()
         self.close_fault = close_fault
+        self.start_connected = start_connected
         self.dev = dev
         self.supplier = supplier
         self.port = None
         self.obj = self.e3m.EBBMotionWrap()
         sess = self
 
-        def factory(name, timeout=None):      # stands in for serial.Serial(port_name, timeout=1.0)
+        def factory(*_a, **_k):               # stands in for serial.Serial(port_name, timeout=1.0), however the arguments are passed
             if sess.dev == "unopenable":
                 raise sess.serial.SerialException("could not open port")
             sess.port = ScriptedPort(sess.serial, sess.dev, lambda text: sess.supplier(text))
@@ -323,7 +326,14 @@ class Session:
             return sess.port
         self.factory = factory
         self.cur_ops = []
-        self.e3s.comports = lambda: iter([] if sess.dev == "absent" else [("/dev/ttyACM0", "EiBotBoard,Lab", "USB VID:PID=04D8:FD92 SER=Lab LOCATION=1-1")])
+        def enumerate_ports():
+            if sess.dev == "absent":
+                return iter([])
+            from serial.tools.list_ports_common import ListPortInfo          # what pyserial 3 enumerates (indexable like the old triples)
+            info = ListPortInfo("/dev/ttyACM0", True)
+            info.description, info.hwid = "EiBotBoard,Lab", "USB VID:PID=04D8:FD92 SER=Lab LOCATION=1-1"
+            return iter([info])
+        self.e3s.comports = enumerate_ports
         self._orig_serial = self.e3s.serial.Serial
         self.e3s.serial.Serial = factory
         if start_connected:
@@ -344,7 +354,9 @@ class Session:
         self.cur_ops = []
         if self.port is not None:
             self.port.ops = self.cur_ops
-        rec = {"m": m, "a": list(a), "s": s, "dead_before": dead_before, "err_before": err_before is not None, "raised": False, "dev": self.dev}
+        rec = {"m": m, "a": list(a), "s": s, "dead_before": dead_before, "err_before": err_before is not None, "raised": False, "dev": self.dev,
+               "ws": ws, "close_fault": self.close_fault, "started_unconnected": not self.start_connected}
+        nclose = len(CLOSE_RAISED)
         try:
             val = dispatch(obj, m, a, s, ws)
         except Exception as ex:  # pylint: disable=broad-except
@@ -362,6 +374,7 @@ class Session:
             nm = req_name(wname[-1]["t"]) if wname else ""
             last_text = payload_of_line(nm, last["line"]) if "line" in last else render_payload(nm, last)
         rec["ops"] = ops
+        rec["close_raised"] = len(CLOSE_RAISED) > nclose          # close() complained during this call (the port was closed all the same)
         rec["ret"] = ["other"] if rec["raised"] else enc_ret(m, val, last_text)
         rec["err_set"] = obj.err is not None
         rec["err_same"] = obj.err is err_before
@@ -374,7 +387,7 @@ class Session:
 def event_of(calls, dev, board, focus):
     return {"dev": dev, "focus": focus, "nick0": board.get("nick", "Lab"), "m1": bool(board.get("m1", False)), "m2": bool(board.get("m2", False)),
             "res": board.get("res", 1), "volt": board.get("volt", 300),
-            "calls": [{k: c[k] for k in ("m", "a", "s", "dev", "dead_before", "err_before", "raised", "ops", "ret", "err_set", "err_same", "port_open", "name")}
+            "calls": [{k: c[k] for k in ("m", "a", "s", "dev", "dead_before", "err_before", "raised", "ops", "ret", "err_set", "err_same", "port_open", "name", "close_raised")}
                       for c in calls]}
 
 
@@ -390,6 +403,7 @@ def judge(ctx, name, events, chunk=400):
 # ---------------------------------------------------------------------------
 
 CLOSE_FAULTS = ["", "", "serial", "notopen"]
+CLOSE_RAISED = []                 # one entry per close() that raised (run_call looks at its growth)
 
 
 def run_script(hist, dev, board, start_connected, wsoff=0):
@@ -464,7 +478,8 @@ def report(ctx, focus, mode, items, verdicts, prefix_ok):
             raise vlib.MachineryError("harness board and EBB3Ops board disagree: %s in %r" % (v, [(c["m"], c["a"]) for c in calls]))
         rej += 1
         c = calls[k - 1]
-        ctx.violation(clause, {"mode": mode, "dev": dev, "board": board, "script": script, "failing_call": k},
+        ctx.violation(clause, {"mode": mode, "dev": dev, "board": board, "script": script, "failing_call": k, "ws": [x.get("ws", 0) for x in calls],
+                               "close_fault": calls[0].get("close_fault", ""), "start_connected": not calls[0].get("started_unconnected", False)},
                       "abstract semantics (focus %s)" % focus,
                       {"call": [c["m"], c["a"], c["s"]], "ret": c["val"], "raised": c.get("exc"), "err_set": c["err_set"], "port_open": c["port_open"],
                        "writes": [o["t"] for o in c["ops"] if o["k"] == "w"], "reads": [o["kind"] for o in c["ops"] if o["k"] == "r"][:30]})
